@@ -85,7 +85,11 @@ def _chunk_externals():
         raise Undecided("text equality %r == %r" % (left, right))
 
     def contains(interp, args, kwargs):
-        raise Undecided("membership")
+        container, item = args
+        if isinstance(container, Chunk) and isinstance(item, str) and item and all(c in "\r\n" for c in item):
+            # the delimiter characters are the only ones the abstraction tells apart
+            return item in container.text()
+        raise Undecided("membership of %r in %r" % (item, container))
 
     def binop(interp, args, kwargs):
         op, left, right = args
@@ -98,7 +102,7 @@ def _chunk_externals():
             return Opaque("str", True)
         return NotImplemented
 
-    return {"text_eq": text_eq, "binop": binop, "text_len": lambda i, a, k: len(a[0].chars)}
+    return {"text_eq": text_eq, "binop": binop, "text_len": lambda i, a, k: len(a[0].chars), "contains": contains}
 
 
 def _make_stream(ch, max_length):
